@@ -16,3 +16,6 @@ open SSVerif.Fsg
 #print axioms C13_write_read_roundtrip
 #print axioms C13_write_read_closed
 #print axioms C13_accepts_iff_nfa
+#print axioms C13_bestLogProb_sound
+#print axioms C13_bestLogProb_total
+#print axioms C13_bestLogProb_iff
